@@ -11,6 +11,11 @@ CDEF = """
 typedef struct { uint8_t a; uint8_t b; uint16_t c; } s4_t;
 typedef struct { int32_t a; int16_t b; int16_t c; } s8_t;
 typedef struct { char a; char b; char c; } s3_t;
+typedef struct { unsigned char r, g, b; } rgb_t;
+typedef struct { int16_t x, y, z; } s6_t;
+typedef struct { int x, y, z; } s12_t;
+typedef int a5_t[5];
+typedef char c7_t[7];
 typedef void *vp_t;
 typedef int16_t *i16p_t;
 typedef int (*fn_t)(int);
@@ -39,6 +44,7 @@ class Kind:
     def __init__(self, name, sz, cls, dec, enc, valid=None, align=None):
         self.name, self.sz, self.cls = name, sz, cls
         self.dec, self.enc = dec, enc          # bytes -> assignable value ; observed value -> bytes
+        self.anybytes = valid is None          # every byte pattern is a value and reads back exactly
         self.valid = valid or (lambda bs: True)
         self.align = align or sz
 
@@ -80,6 +86,13 @@ def _struct_kind(name, sz, align):
     return Kind(name, sz, "struct", dec, enc, align=align)
 
 
+def _arritem_kind(name, sz, align, dec):
+    """items that are themselves arrays (int[5], char[7]): x[i] is an array view of the item"""
+    def enc(x):
+        return bytes(ffis()[0].buffer(x))
+    return Kind(name, sz, "arrayitem", dec, enc, align=align)
+
+
 def _ptr_kind(name):
     def dec(bs):
         return ffis()[0].cast(name, int.from_bytes(bs, "little"))
@@ -107,10 +120,14 @@ KINDS = {k.name: k for k in [
          else bytes([0xEE]), lambda bs: bs[0] <= 1),
     _ptr_kind("vp_t"), _ptr_kind("i16p_t"),
     _struct_kind("s4_t", 4, 2), _struct_kind("s8_t", 8, 4), _struct_kind("s3_t", 3, 1),
+    # item sizes that are not powers of two
+    _struct_kind("rgb_t", 3, 1), _struct_kind("s6_t", 6, 2), _struct_kind("s12_t", 12, 4),
+    _arritem_kind("a5_t", 20, 4, lambda bs: [int.from_bytes(bs[k:k + 4], "little", signed=True) for k in range(0, 20, 4)]),
+    _arritem_kind("c7_t", 7, 1, lambda bs: bytes(bs)),
 ]}
 # kinds whose every byte pattern of the model (bytes k, k+1, ..) is a valid value
 REPLAY_KINDS = {1: ["int8_t", "uint8_t", "char"], 2: ["int16_t", "uint16_t", "char16_t", "short"],
-                3: ["s3_t"], 4: ["int32_t", "uint32_t", "float", "s4_t"],
+                3: ["s3_t", "rgb_t"], 6: ["s6_t"], 7: ["c7_t"], 12: ["s12_t"], 20: ["a5_t"], 4: ["int32_t", "uint32_t", "float", "s4_t"],
                 8: ["int64_t", "uint64_t", "double", "vp_t", "i16p_t", "s8_t", "long"]}
 FLAVORS_ARR = ["slice", "frombuf", "new_fixed", "new_var"]      # guarded ones first
 
@@ -187,6 +204,8 @@ class Arena:
                 ev["val"] = list(kind.enc(x))
                 if kind.cls == "struct":        # the item is itself a view: where does it live?
                     ev["vk"], ev["voff"] = "item", int(f.cast("uintptr_t", f.addressof(x))) - self.base
+                elif kind.cls == "arrayitem":
+                    ev["vk"], ev["voff"] = "item", int(f.cast("uintptr_t", x)) - self.base
             elif o == "setitem":
                 v[i] = kind.dec(op["vals"][0])
             elif o == "slice":
@@ -207,6 +226,8 @@ class Arena:
                 new = (i + v) if op.get("swap") else (v + i)
             elif o == "sub":
                 new = v - i
+            elif o == "cast":               # a T* at any byte distance from the view
+                new = f.cast(kind.name + " *", f.cast("char *", v) + i)
             elif o == "diff":
                 r = v - self.views[ev["b"] - 1]
                 if type(r) is not int:
@@ -345,7 +366,7 @@ def new_arena(kind, flavor, n, fill):
 class TlcJobs:
     """All TLC runs of a check are started at once on a small thread pool (each is its own JVM);
     results are collected, and accounted with ctx.add_tlc, by the main thread when needed."""
-    def __init__(self, n=6):
+    def __init__(self, n=8):
         from concurrent.futures import ThreadPoolExecutor
         self.ex = ThreadPoolExecutor(n)
         self.fut = {}
